@@ -650,6 +650,8 @@ loop:
 				switch fr.Type() {
 				case FrameSettings:
 					st := fr.Body().(*Settings)
+					sc.enc.SetMaxTableSize(st.HeaderTableSize())
+
 					if st.hasWindowSize {
 						delta := int64(int32(st.windowSize)) - int64(curInitialWindow)
 						curInitialWindow = int32(st.windowSize)
@@ -1651,7 +1653,8 @@ func (sc *serverConn) writeLoop() {
 
 func (sc *serverConn) handleSettings(st *Settings) {
 	st.CopyTo(&sc.clientS)
-	sc.enc.SetMaxTableSize(sc.clientS.HeaderTableSize())
+	// The encoder belongs to the stream loop, which sets its table size when
+	// this frame reaches it.
 
 	// The per-stream send windows are adjusted in handleStreams, where the
 	// stream table lives. The connection-level window is not affected by
